@@ -2,6 +2,7 @@ import DispatchVerif.Core.IoP4
 import DispatchVerif.Core.IoW2
 import DispatchVerif.Core.IoCh
 import DispatchVerif.Core.IoHold
+import DispatchVerif.Core.StreamP
 /-! # C14 — dispatch I/O delivers every byte once, in order; each operation completes once (read and write paths)
 
 `IoP` models one stream READ operation of `src/io.c`: the buffer sizing at the top of `_dispatch_operation_perform`,
@@ -119,5 +120,23 @@ theorem cleanup_replay_quiet (a a' : IoHold.A) (h : IoHold.astep a .clean = some
     model reaches the cleanup with all three handler calls returned -/
 theorem cleanup_reachable : ∃ s, IoHold.run {} IoHold.witness = some s ∧ s.cleaned = true ∧ s.returned.length = 3 :=
   IoHold.witness_reaches_cleanup
+
+/-! ## every operation is served: the stream, its handler requests and its readiness source (`StreamP`) -/
+
+/-- **the readiness source is armed exactly while `source_running`; `dispatch_resume` never meets a source that is not suspended**
+    (F32 as repaired) - for every history of enqueues, handler passes, source events and stops -/
+theorem stream_source_consistent {s : StreamP.St} (h : StreamP.Reachable true s) :
+    s.trapped = false ∧ s.susp = (if s.running then 0 else 1) :=
+  StreamP.source_consistent h
+
+/-- **no operation is left behind** (F33 as repaired): while operations are on the list, a handler request is queued or the source
+    is armed -/
+theorem stream_no_stranded_operation {s : StreamP.St} (h : StreamP.Reachable true s) (ho : s.ops ≠ 0) :
+    s.pending ≠ 0 ∨ s.running = true :=
+  StreamP.no_stranded_operation h ho
+
+/-- F32 / F33 as found: histories of the unrepaired steps that trap, and that leave two operations with nothing to serve them -/
+theorem F32_as_found : ∃ s, StreamP.Reachable false s ∧ s.trapped = true := StreamP.F32_as_found
+theorem F33_as_found : ∃ s, StreamP.Reachable false s ∧ s.ops = 2 ∧ s.pending = 0 ∧ s.running = false := StreamP.F33_as_found
 
 end C14
